@@ -93,6 +93,7 @@ func chunkOldIndex(ctx context.Context, file *os.File, name string, fileSizeLimi
 			if err == io.EOF {
 				break
 			}
+			outFile.Close()
 			return 0, err
 		}
 		size := binary.LittleEndian.Uint32(sizeBuffer)
@@ -114,6 +115,7 @@ func chunkOldIndex(ctx context.Context, file *os.File, name string, fileSizeLimi
 		if written >= fileSizeLimit {
 			vhook.Point("iup.chunk.flush")
 			if err = writer.Flush(); err != nil {
+				outFile.Close()
 				return 0, err
 			}
 			outFile.Close()
@@ -135,6 +137,7 @@ func chunkOldIndex(ctx context.Context, file *os.File, name string, fileSizeLimi
 	vhook.Point("iup.chunk.last")
 	if written != 0 {
 		if err = writer.Flush(); err != nil {
+			outFile.Close()
 			return 0, err
 		}
 	}
